@@ -365,6 +365,69 @@ def run(prog, rep, tier):
                 rep.violation(R198, inst, "summaryprint_update_dt: when %s the field is overwritten although the value is not %s" % (what, "earlier" if direction == "min" else "later"))
     rep.floor("R19.8", 2)
 
+    # ------------------------------------------------------------ R19.11 per-file first/last of an event log are running extrema
+    # Event-log records are read in stored order and printed in time order, so the per-file
+    # "first/last" datetimes must be kept as running minimum/maximum: each overwrite of a ts_* field
+    # is controlled either by "the field is still None" or by a comparison of the field with the new
+    # value in the right direction.  "The first sets first, every record overwrites last" is only right
+    # for sources that are read in time order.
+    R1911 = rep.rule("R19.11", "EvtxReader keeps ts_first_*/ts_last_* as running minimum/maximum (every overwrite is controlled by None or by the right comparison)")
+    import accum as _acc
+    ab_ = prog.body("s4lib::readers::evtxreader::EvtxReader::analyze")
+    n1911 = 0
+    for fld, want in (("ts_first_processed", "min"), ("ts_last_processed", "max"), ("ts_first_accepted", "min"), ("ts_last_accepted", "max")):
+        ws_ = _acc._field_writes(ab_, sorted(ab_.live), fld)
+        if not ws_:
+            raise CheckerError("EvtxReader::analyze: no write to %s" % fld)
+        # blocks that test the field: None/Some tests and comparisons with its payload
+        tests_f = {}
+        for sbb in sorted(ab_.live):
+            t = ab_.term(sbb)
+            if t[0] != "switch":
+                continue
+            for o_ in ab_.origins(t[1], through_calls=("ops::Not>::not",)):
+                if o_[0] == "discr":
+                    st_ = ab_.stmts(o_[1])[o_[2]]
+                    roots = ab_.origins(["cp", st_[2][1]], through_calls=("::as_ref", "::as_mut", "::deref", "Clone>::clone"))
+                    if any(r_[0] == "arg" and r_[1] == 1 and fld in str(r_[2]) for r_ in roots):
+                        tests_f[sbb] = ("shape", None)
+                elif o_[0] == "call":
+                    nm_ = o_[2].split("::")[-1]
+                    cc_ = [z for z in ab_.calls if z.bb == o_[1]][0]
+                    ar_ = [ab_.origins(a_, through_calls=("::as_ref", "::deref", "Clone>::clone", "::unwrap", "::as_mut")) for a_ in cc_.args if a_[0] != "k"]
+                    fa_ = [any(r_[0] == "arg" and r_[1] == 1 and fld in str(r_[2]) for r_ in x_) for x_ in ar_]
+                    if nm_ in ("is_none", "is_some") and any(fa_):
+                        tests_f[sbb] = ("shape", None)
+                    elif nm_ in ("gt", "lt", "ge", "le", "partial_cmp", "cmp", "max", "min") and any(fa_):
+                        tests_f[sbb] = ("cmp", (nm_, fa_))
+        for wbb, _rv in ws_:
+            n1911 += 1
+            controlled = wbb not in ab_.reachable(0, set(tests_f) - {wbb}) or wbb in tests_f
+            # direction, where a comparison directly selects the overwrite
+            wrong = False
+            for sbb, (kind_, info_) in tests_f.items():
+                if kind_ != "cmp" or info_[0] not in ("gt", "lt", "ge", "le") or len(info_[1]) != 2 or info_[1][0] == info_[1][1]:
+                    continue
+                t = ab_.term(sbb)
+                tgts = [(int(v_), tb_) for v_, tb_ in t[2]] + [(None, t[3])]
+                for v_, tb_ in tgts:
+                    if ab_.pred[tb_] == [sbb] and ab_.dominates(tb_, wbb):
+                        true_arm = (v_ != 0)
+                        rel = info_[0] if info_[1][0] else {"gt": "lt", "lt": "gt", "ge": "le", "le": "ge"}[info_[0]]
+                        if not true_arm:
+                            rel = {"gt": "le", "lt": "ge", "ge": "lt", "le": "gt"}[rel]
+                        good = ("gt", "ge") if want == "min" else ("lt", "le")
+                        if rel not in good:
+                            wrong = True
+            verdict = "compared-wrong-direction" if wrong else ("controlled" if controlled else "uncontrolled")
+            rep.examined(R1911, "%s|%s|bb%d" % (ab_.path, fld, wbb), sample={"field": fld, "keeps": want, "tests_of_the_field": len(tests_f), "overwrite": verdict})
+            if verdict != "controlled":
+                rep.violation(R1911, "%s|%s|%s" % (ab_.path, fld, verdict), "EvtxReader::analyze overwrites %s %s; records are stored out of time order, so the per-file %s datetime of the summary is then not the %s printed one "
+                              "(it can even be later than the last)" % (fld, "on paths that never test it (e.g. on every record)" if verdict == "uncontrolled" else "under a comparison in the wrong direction",
+                                                                      "first" if want == "min" else "last", "earliest" if want == "min" else "latest"))
+    if n1911 < 4:
+        raise CheckerError("R19.11: only %d overwrites of ts_* fields found in EvtxReader::analyze (expected at least one per field)" % n1911)
+
     return rep.finish(
         "Static necessary-condition check of the summary bookkeeping: the four per-kind updaters write bytes/flushed/lines/own counter/datetimes "
         "alike; in every message arm the per-file and total updaters receive exactly the print call's returned (printed, flushed); every direct "
